@@ -45,8 +45,40 @@ def guard(ctx, crate, tag=""):
     return n
 
 
+def hemisphere(ctx, crate):
+    """N: the two containment tests of the elliptical cone (`contains`, `contains_cone`: the ones that
+    make a cell FULL) hand a projected point to the ellipse test only when the point is on the
+    hemisphere of the cone centre: the orthographic projection maps the far hemisphere onto the same
+    disc, so a forced projection flags cells near the antipode as fully inside."""
+    from sym import Engine, show, walk
+    from rules.common import derives
+    clause = "hemisphere"
+    EC = "sph_geom::elliptical_cone::EllipticalCone::"
+    opq = {p for p in crate.bodies if "sph_geom::proj" in p or "Ellipse::" in p}
+    for name in ("contains", "contains_cone"):
+        fn = EC + name
+        b = ctx.anchor(crate, fn, clause)
+        if b is None: continue
+        e = Engine(crate, opaque=opq); r = e.run(fn); ctx.functions |= e.visited_fns
+        tests = [ev for ev in e.events.values() if ev.callee and ev.callee.endswith("Ellipse::contains")]
+        projs = [ev for ev in e.events.values() if ev.callee and "sph_geom::proj" in ev.callee and ev.ret is not None]
+        ok = bool(tests); why = "%d ellipse tests" % len(tests)
+        for t in tests:
+            src = [p for p in projs if any(derives(e, a, p.ret, 2) for a in t.args[1:])]
+            if len(src) != 1:
+                ok = False; why = "the tested point does not come from one projection call"; break
+            p = src[0]
+            some = any(f[0] == 'eqc' and f[1] == ('discr', p.ret) and f[2] == 1 and f[3] for f in t.facts)          # Option: Some
+            flag = any(f[0] == 'b' and f[2] is True and f[1][0] == 'fld' and f[1][1] == p.ret for f in t.facts)      # (xy, dist, same_hemisphere): flag tested
+            if not (some or flag):
+                ok = False; why = "%s is reached with the result of %s without the fact that the point is on the near hemisphere" % (t.callee.split("::")[-2] + "::contains", p.callee.split("::")[-1]); break
+            why = "ellipse test only under `%s(..)` = Some / near-hemisphere flag" % p.callee.split("::")[-1].rstrip(">")
+        ctx.report(clause, fn + ":near-hemisphere-only", ok, why, at=b.span, kind="N")
+
+
 def run(ctx):
     crate = ctx.crate("rel")
+    hemisphere(ctx, crate)
     n = guard(ctx, crate)
     ctx.floor("guarded-entry-points", n, 5)
     if ctx.tier == "thorough":
